@@ -48,7 +48,9 @@ prop("C19",
      modules=["nullbackends"],
      functions=[SBB + n for n in ("memoize", "forget_call", "forget_everything", "forget_function", "write_metadata", "is_memoized", "read_result", "get_mementos")]
      + ["storage_null:NullStorageBackend." + n for n in ("get_mementos", "is_memoized", "is_all_memoized", "list_functions", "read_result", "read_metadata", "memoize")]
-     + ["runner_null:NullRunnerBackend.batch_run", "storage:StorageBackend.__init__"],
+     + ["runner_null:NullRunnerBackend.batch_run", "storage:StorageBackend.__init__",
+        "storage_filesystem:FilesystemStorageBackend.__init__@config-only", "storage_memory:MemoryStorageBackend.__init__@config-only"],
+     function_modules={"storage_filesystem:FilesystemStorageBackend.__init__@config-only": ["config"], "storage_memory:MemoryStorageBackend.__init__@config-only": ["config"]},
      design_ref="DESIGN.md section 6, C19",
      assume_props=["C05"],
      trusted=["clauses tagged C05 (cache/store coherence) are assumed here and proved by the C05 check over the same functions",
@@ -86,7 +88,7 @@ prop("C16", modules=["runner"], functions=["runner_local:memento_run_batch"],
 
 FS = "storage_filesystem:FilesystemStorageBackend."
 prop("C18", modules=["config"],
-     functions=[FS + "__init__", FS + "to_dict", "storage_base:StorageBackendBase.__init__", "storage:StorageBackend.__init__",
+     functions=[FS + "__init__", FS + "__init__@config-only", "storage_memory:MemoryStorageBackend.__init__@config-only", FS + "to_dict", "storage_base:StorageBackendBase.__init__", "storage:StorageBackend.__init__",
                 "storage_memory:MemoryStorageBackend.__init__", "storage_memory:MemoryStorageBackend.to_dict", "storage_null:NullStorageBackend.to_dict",
                 "storage:StorageBackend.create", "runner:RunnerBackend.create", "runner_local:LocalRunnerBackend.to_dict", "runner_null:NullRunnerBackend.to_dict",
                 "configuration:FunctionCluster.__init__", "configuration:FunctionCluster.to_dict", "configuration:ConfigurationRepository.to_dict",
